@@ -4,6 +4,7 @@
 //   C01  results are sentences of the active grammar
 //   C03  segmentation tiles the utterance, agrees with hypothesis and score
 #include "common/decode.h"
+#include "common/latalg.h"
 
 #include <cstring>
 
@@ -13,6 +14,7 @@ using namespace dec;
 namespace {
 
 decoder_t *gDec[2] = {nullptr, nullptr};
+bool c_probeKnown = false; // set per case: assert listed known classes on a small fraction of cases
 
 struct Case {
   int decIdx = 0;
@@ -37,6 +39,9 @@ Case genCase(Choices &c, int queryPct) {
   case 3: N = c.range(16000, 44800); break;       // the length of the bundled recording
   default: N = c.range(44800, 60000); break;
   }
+  // wide-open beams over a large expanded grammar cost seconds per second of audio:
+  // keep those cases short (bounded by size, not by a time limit)
+  if (k.sc.beam == 0 && k.gram.text.size() > 220 && N > 12000) N = 12000;
   k.audio = audio::recipe(c, (size_t)N, k.audioDesc, true, 12);
   k.fullUtt = c.coin(8);
   if (k.fullUtt) k.chunks = {{(size_t)N, false, false}};
@@ -113,11 +118,392 @@ Verdict oracleC03(decoder_t *d, const Obs &o, bool final, long T, Ctx &ctx) {
   return Verdict::pass();
 }
 
+
+// grammar simulation over the augmented grammar (null arcs = epsilon)
+struct GSim {
+  fsa::Enumerator e;
+  explicit GSim(const fsa::Fsa &a) : e(a, 0) {}
+  typedef std::vector<int> SS;
+  SS fromFront(const fsa::Enumerator::Front &f) {
+    SS s;
+    for (auto &kv : f) s.push_back(kv.first);
+    return s;
+  }
+  SS initial() {
+    fsa::Enumerator::Front f;
+    f[e.a.start] = 0;
+    e.closure(f);
+    return fromFront(f);
+  }
+  SS step(const SS &s, const std::string &w) {
+    fsa::Enumerator::Front nx;
+    for (int st : s)
+      for (auto arc : e.out[st])
+        if (arc->label == w) nx[arc->to] = 0;
+    e.closure(nx);
+    return fromFront(nx);
+  }
+};
+
+// find a chain of linked lattice nodes matching (word, sf, ef) triples
+bool findChain(const lat::Lat &L, const std::vector<Seg> &segs, size_t i, int node, std::vector<int> &chain) {
+  if (i == segs.size()) return true;
+  for (size_t n = 0; n < L.nodes.size(); ++n) {
+    const lat::Node &x = L.nodes[n];
+    if (x.word != segs[i].word || x.sf != segs[i].sf) continue;
+    // synthetic <s>/</s> nodes are zero-length markers: no end-frame range to honour
+    if (!lat::synthetic(L, (int)n) && (segs[i].ef < x.fef || segs[i].ef > x.lef)) continue;
+    if (node >= 0) {
+      bool linked = false;
+      for (int li : L.nodes[node].out)
+        if (L.links[li].to == (int)n) linked = true;
+      if (!linked) continue;
+    }
+    chain.push_back((int)n);
+    if (findChain(L, segs, i + 1, (int)n, chain)) return true;
+    chain.pop_back();
+  }
+  return false;
+}
+
+Verdict oracleC11(decoder_t *d, lattice_t *dag, const Obs &o, const fsa::Fsa &gEps, bool final, Ctx &ctx) {
+  const char *when = final ? "final" : "partial";
+  lat::Lat L = lat::read(dag);
+  PBT_CHECK(L.problem.empty(), "lattice-structure", when << ": " << L.problem);
+  PBT_CHECK(L.start >= 0 && L.end >= 0, "no-start-or-end-node", when << ": lattice without a start or end node among its nodes");
+  bool cyclic = false;
+  std::vector<int> order = lat::topo(L, &cyclic);
+  PBT_CHECK(!cyclic, "lattice-cycle", when << ": the lattice has a cycle");
+  std::vector<bool> fw = lat::reach(L, L.start, true), bw = lat::reach(L, L.end, false);
+  for (size_t n = 0; n < L.nodes.size(); ++n) {
+    PBT_CHECK(fw[n], "node-not-reachable-from-start", when << ": node " << L.nodes[n].word << "@" << L.nodes[n].sf << " is not reachable from the start node " << L.nodes[L.start].word << "@" << L.nodes[L.start].sf << " (" << L.nodes.size() << " nodes)");
+    PBT_CHECK(bw[n], "node-cannot-reach-end", when << ": node " << L.nodes[n].word << "@" << L.nodes[n].sf << " does not reach the end node");
+  }
+  PBT_CHECK(L.nframes == ((fsg_search_t *)d->search)->frame, "lattice-frame-count", when << ": lattice covers " << L.nframes << " frames, the search has " << ((fsg_search_t *)d->search)->frame);
+  for (auto &l : L.links) {
+    const lat::Node &u = L.nodes[l.from], &v = L.nodes[l.to];
+    if (lat::synthetic(L, l.from)) {
+      PBT_CHECK(v.sf == 0, "link-adjacency", when << ": synthetic start links to " << v.word << "@" << v.sf);
+      continue;
+    }
+    if (lat::synthetic(L, l.to)) {
+      PBT_CHECK(u.lef == L.nframes - 1, "link-adjacency", when << ": " << u.word << "@" << u.sf << " (last end frame " << u.lef << ") links to the synthetic end of a " << L.nframes << "-frame lattice");
+      continue;
+    }
+    PBT_CHECK(v.sf == l.ef + 1, "link-adjacency", when << ": link " << u.word << "@" << u.sf << " -> " << v.word << "@" << v.sf << " ends at frame " << l.ef);
+    PBT_CHECK(u.fef <= l.ef && l.ef <= u.lef, "link-adjacency", when << ": link end frame " << l.ef << " outside the end-frame range " << u.fef << ".." << u.lef << " of " << u.word << "@" << u.sf);
+    PBT_CHECK(0 <= u.sf && u.sf <= l.ef && l.ef < L.nframes, "link-adjacency", when << ": word instance " << u.word << " " << u.sf << "-" << l.ef << " outside the utterance (" << L.nframes << " frames)");
+  }
+  // every path is a grammar path: propagate (node, state set)
+  {
+    GSim g(gEps);
+    std::vector<std::set<GSim::SS>> sets(L.nodes.size());
+    GSim::SS s0 = g.initial();
+    if (lat::synthetic(L, L.start)) sets[L.start].insert(s0);
+    else {
+      GSim::SS s1 = g.step(s0, L.nodes[L.start].word);
+      PBT_CHECK(!s1.empty(), "lattice-path-not-in-grammar", when << ": start node word '" << L.nodes[L.start].word << "' does not leave the grammar's start state");
+      sets[L.start].insert(s1);
+    }
+    size_t pairs = 1;
+    bool capped = false;
+    for (int n : order) {
+      if (capped) break;
+      for (int li : L.nodes[n].out) {
+        int m = L.links[li].to;
+        for (auto &S : sets[n]) {
+          GSim::SS S2 = lat::synthetic(L, m) ? S : g.step(S, L.nodes[m].word);
+          PBT_CHECK(!S2.empty(), "lattice-path-not-in-grammar", when << ": a lattice path reaches " << L.nodes[n].word << "@" << L.nodes[n].sf << " and continues with '" << L.nodes[m].word << "'@" << L.nodes[m].sf << ", which no grammar path from the start state allows");
+          if (sets[m].insert(S2).second && ++pairs > 50000) capped = true;
+        }
+      }
+    }
+    ctx.labelIf(capped, "grammar-simulation:capped");
+  }
+  // the first-best segmentation appears as a path
+  if (o.hasSeg) {
+    std::vector<Seg> real;
+    for (auto &s : o.segs)
+      if (s.word != "(NULL)") real.push_back(s);
+    if (!real.empty()) {
+      std::vector<int> chain;
+      if (!findChain(L, real, 0, -1, chain)) {
+        // classify: which part of the first-best path is missing
+        std::string cls = "first-best-not-in-lattice";
+        std::vector<Seg> head(real.begin(), real.end() - 1);
+        chain.clear();
+        if (real.size() == 1) cls += ":single-segment";
+        else if (findChain(L, head, 0, -1, chain)) cls += ":last-segment-missing";
+        if (!isKnown(cls) || c_probeKnown)
+          return Verdict::fail(cls, Msg() << when << ": the first-best segmentation " << o.str() << " is not a chain of linked lattice nodes (" << L.nodes.size() << " nodes, end node " << L.nodes[L.end].word << "@" << L.nodes[L.end].sf << ")");
+        ctx.label("known-class-not-asserted:" + cls);
+      }
+      ctx.labelIf(real.size() == 1, "first-best-single-segment");
+    }
+  }
+  PBT_CHECK(decoder_lattice(d) == dag, "lattice-not-cached", when << ": asking again without new audio returned a different lattice object");
+  double paths = lat::countPaths(L, order);
+  ctx.labelIf(lat::synthetic(L, L.start), "synthetic-start");
+  ctx.labelIf(lat::synthetic(L, L.end), "synthetic-end");
+  if (L.nodes.size() >= 4 && paths >= 2) ctx.nontrivial = true;
+  return Verdict::pass();
+}
+
+std::string dumpLat(const lat::Lat &L) {
+  std::ostringstream o;
+  if (L.nodes.size() > 40) return "(" + std::to_string(L.nodes.size()) + " nodes)";
+  for (size_t i = 0; i < L.nodes.size(); ++i) {
+    const lat::Node &n = L.nodes[i];
+    o << "\n  " << (int(i) == L.start ? "START " : int(i) == L.end ? "END " : "") << n.word << "@" << n.sf << " ef " << n.fef << ".." << n.lef << " ->";
+    for (int li : n.out) o << " " << L.nodes[L.links[li].to].word << "@" << L.nodes[L.links[li].to].sf << "(" << L.links[li].ascr << ",ef" << L.links[li].ef << ")";
+  }
+  return o.str();
+}
+
+long double lse(long double a, long double b, long double lnb) {
+  // log_b(b^a + b^b)
+  if (a < b) std::swap(a, b);
+  return a + log1pl(expl((b - a) * lnb)) / lnb;
+}
+
+Verdict oracleC12(decoder_t *d, lattice_t *dag, bool final, Ctx &ctx) {
+  const char *when = final ? "final" : "partial";
+  fsg_search_t *fs = (fsg_search_t *)d->search;
+  float ascale = fs->ascale;
+  logmath_t *lm = lattice_get_logmath(dag);
+  const long double lnb = logl((long double)logmath_get_base(lm));
+  const int zero = logmath_get_zero(lm);
+  lat::Lat L = lat::read(dag);
+  if (!L.problem.empty() || L.start < 0 || L.end < 0) return Verdict::pass(); // judged by C11
+  bool cyclic = false;
+  std::vector<int> order = lat::topo(L, &cyclic);
+  if (cyclic) return Verdict::pass();
+  std::vector<bool> fw = lat::reach(L, L.start, true), bw = lat::reach(L, L.end, false);
+  for (size_t n = 0; n < L.nodes.size(); ++n)
+    if (!fw[n] || !bw[n]) {
+      ctx.label("skipped:malformed-lattice(C11)");
+      return Verdict::pass();
+    }
+  // --- independent longest path ---
+  const long NEGINF = -(1L << 60);
+  std::vector<long> best(L.nodes.size(), NEGINF);
+  best[L.start] = 0;
+  for (int n : order)
+    if (best[n] > NEGINF)
+      for (int li : L.nodes[n].out) best[L.links[li].to] = std::max(best[L.links[li].to], best[n] + L.links[li].ascr);
+  long B = best[L.end];
+  // --- best path of the library ---
+  latlink_t *bl = lattice_bestpath(dag, ascale);
+  if (L.start == L.end || L.nodes[L.end].in.empty()) {
+    ctx.label("lattice:single-node");
+    return Verdict::pass();
+  }
+  PBT_CHECK(bl != NULL, "bestpath-null", when << ": lattice_bestpath returned NULL on a lattice with start-to-end paths");
+  PBT_CHECK(bl->to == dag->end, "bestpath-not-into-end", when << ": best link does not enter the end node");
+  PBT_CHECK((long)bl->path_scr == B, "bestpath-not-optimal", when << ": lattice_bestpath score " << bl->path_scr << ", independent longest path " << B);
+  {
+    long sum = 0;
+    int guard = 0;
+    latlink_t *l = bl;
+    for (; l; l = l->best_prev) {
+      sum += l->ascr;
+      if (l->best_prev) PBT_CHECK(l->best_prev->to == l->from, "bestpath-chain-broken", when << ": best_prev chain is not a connected path");
+      else
+        PBT_CHECK(l->from == dag->start, "bestpath-chain-broken", when << ": best path does not begin at the start node");
+      PBT_CHECK(++guard < 100000, "bestpath-chain-broken", "best_prev chain does not terminate");
+    }
+    PBT_CHECK(sum == B, "bestpath-not-optimal", when << ": scores along the best_prev chain sum to " << sum << ", path_scr says " << B);
+  }
+  // --- posteriors ---
+  int32 post = lattice_posterior(dag, ascale);
+  {
+    size_t nl = L.links.size();
+    std::vector<long double> t(nl), a(nl), b(nl), ea(nl, 0), eb(nl, 0);
+    for (size_t i = 0; i < nl; ++i) t[i] = (long double)(int32)(((int32)L.links[i].ascr << SENSCR_SHIFT) * ascale);
+    // forward in topological order of source nodes
+    for (int n : order) {
+      for (int li : L.nodes[n].out) {
+        if (n == L.start) {
+          a[li] = t[li];
+          ea[li] = 0;
+        } else {
+          bool first = true;
+          long double acc = 0, e = 0;
+          for (int pi : L.nodes[n].in) {
+            acc = first ? a[pi] : lse(acc, a[pi], lnb);
+            e = std::max(e, ea[pi]);
+            first = false;
+          }
+          a[li] = acc + t[li];
+          ea[li] = e + 0.5L * (long double)L.nodes[n].in.size();
+        }
+      }
+    }
+    long double normRef = 0, en = 0;
+    {
+      bool first = true;
+      for (int pi : L.nodes[L.end].in) {
+        normRef = first ? a[pi] : lse(normRef, a[pi], lnb);
+        en = std::max(en, ea[pi]);
+        first = false;
+      }
+      en += 0.5L * (long double)L.nodes[L.end].in.size();
+    }
+    for (auto it = order.rbegin(); it != order.rend(); ++it) {
+      int n = *it;
+      for (int li : L.nodes[n].in) { // links ending in n
+        if (n == L.end) {
+          b[li] = 0;
+          eb[li] = 0;
+        } else {
+          bool first = true;
+          long double acc = 0, e = 0;
+          for (int xi : L.nodes[n].out) {
+            long double v = b[xi] + t[xi];
+            acc = first ? v : lse(acc, v, lnb);
+            e = std::max(e, eb[xi]);
+            first = false;
+          }
+          b[li] = acc;
+          eb[li] = e + 0.5L * (long double)L.nodes[n].out.size();
+        }
+      }
+    }
+    const long double tol = 1e-6L;
+    PBT_CHECK(fabsl((long double)dag->norm - normRef) <= en + tol, "forward-total", when << ": normaliser " << dag->norm << ", independent forward total " << (double)normRef << " (bound " << (double)en << ")");
+    long double back = 0, ebk = 0;
+    {
+      bool first = true;
+      for (int xi : L.nodes[L.start].out) {
+        long double v = (long double)L.links[xi].p->beta + t[xi];
+        back = first ? v : lse(back, v, lnb);
+        ebk = std::max(ebk, eb[xi]);
+        first = false;
+      }
+      ebk += 0.5L * (long double)L.nodes[L.start].out.size();
+    }
+    PBT_CHECK(fabsl(back - (long double)dag->norm) <= en + ebk + tol, "forward-backward-disagree", when << ": backward total " << (double)back << " vs forward total " << dag->norm << " (bound " << (double)(en + ebk) << ")");
+    for (size_t i = 0; i < nl; ++i) {
+      latlink_t *l = L.links[i].p;
+      PBT_CHECK(fabsl((long double)l->alpha - a[i]) <= ea[i] + tol, "alpha-inaccurate", when << ": link alpha " << l->alpha << " vs reference " << (double)a[i] << " (bound " << (double)ea[i] << ")");
+      PBT_CHECK(fabsl((long double)l->beta - b[i]) <= eb[i] + tol, "beta-inaccurate", when << ": link beta " << l->beta << " vs reference " << (double)b[i] << " (bound " << (double)eb[i] << ")");
+      int32 ascrOut = 0;
+      long p = ps_latlink_prob(dag, l, &ascrOut);
+      PBT_CHECK((long double)p <= ea[i] + eb[i] + en + tol, "posterior-above-one", when << ": link posterior " << p << " > 0 beyond the rounding bound " << (double)(ea[i] + eb[i] + en));
+      PBT_CHECK(p >= (long)zero * 3, "posterior-below-zero", when << ": link posterior " << p << " below log-zero");
+    }
+    PBT_CHECK((long double)post <= en + tol, "best-path-posterior-above-one", when << ": lattice_posterior returned " << post << " > 0 beyond the rounding bound " << (double)en);
+  }
+  // --- N-best ---
+  double npaths = lat::countPaths(L, order);
+  std::map<std::string, std::set<long>> pathScores; // real-word sequence -> scores of start->end paths
+  bool enumerated = false;
+  if (npaths <= 20000) {
+    enumerated = true;
+    // DFS enumeration
+    struct Fr {
+      int node;
+      size_t next;
+      long score;
+    };
+    std::vector<Fr> st{{L.start, 0, 0}};
+    std::vector<int> pathNodes{L.start};
+    while (!st.empty()) {
+      Fr &f = st.back();
+      if (f.node == L.end) {
+        std::string w;
+        for (int n : pathNodes)
+          if (!isFillerWord(d, L.nodes[n].base)) w += (w.empty() ? "" : " ") + L.nodes[n].base;
+        pathScores[w].insert(f.score);
+        st.pop_back();
+        pathNodes.pop_back();
+        continue;
+      }
+      if (f.next >= L.nodes[f.node].out.size()) {
+        st.pop_back();
+        pathNodes.pop_back();
+        continue;
+      }
+      int li = L.nodes[f.node].out[f.next++];
+      long sc = f.score + L.links[li].ascr;
+      int to = L.links[li].to;
+      st.push_back({to, 0, sc});
+      pathNodes.push_back(to);
+    }
+  }
+  {
+    hyp_iter_t *it = decoder_nbest(d);
+    long prev = 0;
+    int k = 0;
+    std::set<std::string> distinct;
+    for (; it && k < 200; it = hyp_iter_next(it), ++k) {
+      int32 sc = 0;
+      const char *h = hyp_iter_hyp(it, &sc);
+      std::string hs = h ? h : "";
+      // The statement orders N-best scores and ties hypotheses to lattice paths by word
+      // sequence; it does not say that an N-best score is a start-to-end path score (A*
+      // seeds every node starting at frame 0, so it also reports paths that skip the
+      // synthetic start link).  Such cases are counted, not judged.
+      if (k == 0) {
+        ctx.labelIf((long)sc > B, "nbest:first-scores-above-best-start-end-path");
+        ctx.labelIf((long)sc == B, "nbest:first-equals-best-path");
+      }
+      if (k > 0)
+        PBT_CHECK((long)sc <= prev, "nbest-order", when << ": N-best hypothesis " << k << " scores " << sc << " after " << prev);
+      prev = sc;
+      distinct.insert(hs);
+      if (enumerated) {
+        auto ps = pathScores.find(hs);
+        PBT_CHECK(ps != pathScores.end(), "nbest-not-a-lattice-path", when << ": N-best hypothesis '" << hs << "' is not the word sequence of any start-to-end path (" << pathScores.size() << " word sequences over " << npaths << " paths, e.g. '" << (pathScores.empty() ? std::string("-") : pathScores.begin()->first) << "'); lattice: " << dumpLat(L));
+        ctx.labelIf(ps->second.count((long)sc) == 0, "nbest:score-is-not-a-start-end-path-score");
+      }
+      // its segmentation is a chain of linked nodes
+      seg_iter_t *si = hyp_iter_seg(it);
+      std::vector<Seg> segs;
+      for (; si; si = seg_iter_next(si)) {
+        Seg s;
+        s.word = seg_iter_word(si);
+        seg_iter_frames(si, &s.sf, &s.ef);
+        segs.push_back(s);
+      }
+      std::vector<int> chain;
+      PBT_CHECK(findChain(L, segs, 0, -1, chain), "nbest-segmentation-not-in-lattice", when << ": segmentation of N-best hypothesis '" << hs << "' is not a chain of linked lattice nodes");
+    }
+    if (it) {
+      hyp_iter_free(it);
+      ctx.label("nbest:stopped-at-200");
+    }
+    ctx.labelIf(k >= 2, "nbest>=2");
+    ctx.labelIf(!enumerated, "paths>20000(not-enumerated)");
+    if (distinct.size() >= 2) ctx.nontrivial = true;
+    PBT_CHECK(k >= 1, "nbest-empty", when << ": decoder_nbest produced nothing on a lattice with " << npaths << " paths");
+  }
+  return Verdict::pass();
+}
+
+
+Verdict judge(decoder_t *d, const Case &k, const Obs &o, bool final, long T, const fsa::Fsa &gplus, const fsa::Fsa &gEps, int which, Ctx &ctx) {
+  switch (which) {
+  case 0: return oracleC01(d, k, o, final, gplus, ctx);
+  case 1: return oracleC03(d, o, final, T, ctx);
+  default: {
+    lattice_t *dag = decoder_lattice(d);
+    if (!dag) {
+      ctx.label(final ? "lattice:NULL(final)" : "lattice:NULL(partial)");
+      return Verdict::pass();
+    }
+    ctx.label(final ? "lattice:final" : "lattice:partial");
+    return which == 2 ? oracleC11(d, dag, o, gEps, final, ctx) : oracleC12(d, dag, final, ctx);
+  }
+  }
+}
+
 // --------------------------------------------------------------------- runner
-enum Which { W_C01, W_C03 };
+enum Which { W_C01 = 0, W_C03 = 1, W_C11 = 2, W_C12 = 3 };
 
 Verdict runCase(Choices &c, Ctx &ctx, Which which) {
-  Case k = genCase(c, which == W_C01 ? 25 : 15);
+  Case k = genCase(c, which == W_C01 ? 25 : which == W_C03 ? 15 : 20);
+  c_probeKnown = c.coin(4);
   ctx.describe(caseDesc(k));
   decoder_t *d = gDec[k.decIdx];
   applySearchCfg(d, k.sc);
@@ -125,6 +511,7 @@ Verdict runCase(Choices &c, Ctx &ctx, Which which) {
   PBT_CHECK(rc == 0, std::string("install-refused:") + (k.gram.kind == Gram::JSGF ? "jsgf" : k.gram.kind == Gram::FSG ? "fsg" : "align"),
             "valid grammar over dictionary words was refused (rc=" << rc << "): " << k.gram.desc);
   fsa::Fsa gplus = augmentedExplicitNulls(d);
+  fsa::Fsa gEps = augmented(d);
   fsg_search_t *fs = (fsg_search_t *)d->search;
   ctx.label(k.gram.kind == Gram::JSGF ? "door:jsgf" : k.gram.kind == Gram::FSG ? "door:fsg" : "door:align");
   ctx.label("audio:" + k.audioDesc.substr(0, k.audioDesc.find('(')));
@@ -154,7 +541,7 @@ Verdict runCase(Choices &c, Ctx &ctx, Which which) {
       Obs o = observe(d);
       ++partials;
       partialHyp = partialHyp || o.hasHyp;
-      Verdict v = which == W_C01 ? oracleC01(d, k, o, false, gplus, ctx) : oracleC03(d, o, false, returned, ctx);
+      Verdict v = judge(d, k, o, false, returned, gplus, gEps, which, ctx);
       if (!v.ok) return v;
     }
   }
@@ -163,7 +550,7 @@ Verdict runCase(Choices &c, Ctx &ctx, Which which) {
   long T = fs->frame;
   long inEnd = T - before;
   Obs o = observe(d);
-  Verdict v = which == W_C01 ? oracleC01(d, k, o, true, gplus, ctx) : oracleC03(d, o, true, T, ctx);
+  Verdict v = judge(d, k, o, true, T, gplus, gEps, which, ctx);
   if (!v.ok) return v;
   if (which == W_C03) {
     long want = frameFormula((long)k.audio.size(), 410, 160);
@@ -189,6 +576,8 @@ Verdict runCase(Choices &c, Ctx &ctx, Which which) {
 
 Verdict propC01(Choices &c, Ctx &ctx) { return runCase(c, ctx, W_C01); }
 Verdict propC03(Choices &c, Ctx &ctx) { return runCase(c, ctx, W_C03); }
+Verdict propC11(Choices &c, Ctx &ctx) { return runCase(c, ctx, W_C11); }
+Verdict propC12(Choices &c, Ctx &ctx) { return runCase(c, ctx, W_C12); }
 
 void initDecode() {
   err_set_loglevel(ERR_FATAL);
@@ -211,6 +600,8 @@ namespace pbt {
 const PropDef kProps[] = {
     {"C01", propC01, true, 60000, initDecode},
     {"C03", propC03, true, 60000, initDecode},
+    {"C11", propC11, true, 20000, initDecode},
+    {"C12", propC12, true, 20000, initDecode},
     {nullptr, nullptr, false, 0, nullptr},
 };
 }
